@@ -3,6 +3,7 @@ MAIN_WEAVE = ["./pkg/...", "./cmd/broker/", "./cmd/proxy/", "./internal/..."]
 
 WORLDS = {
     "w1": {"pkg": "cmd/broker", "harness": "w1", "weave": MAIN_WEAVE},
+    "wm": {"pkg": "internal/mcpserver", "harness": "wm", "weave": MAIN_WEAVE},
 }
 
 def P(world, **kw):
@@ -29,6 +30,11 @@ PROPS = {
              level_note="as strong as the Go race detector along the explored schedules; reports whose two accesses are not both in repo code (harness/stub memory) are ignored"),
     "C22": P("w1", quick_runs=3000, thorough_runs=150000, quick_budget_s=100, thorough_budget_s=1200),
     "C24": P("w1", quick_runs=3000, thorough_runs=150000, quick_budget_s=100, thorough_budget_s=1200, required_probes=["c24.denied-item"]),
+    "C11": P("w1", quick_runs=600, thorough_runs=20000, quick_budget_s=100, thorough_budget_s=900, required_probes=["c11.pair"],
+             level_text="every run sweeps ALL (key, version) pairs the broker advertises (finite, enumerated) plus a sample of non-advertised versions, with generated request bodies, against a broker that is concurrently serving traffic in the simulator; deciding dimension is enumeration + generated inputs, the simulator hosts it",
+             level_note="broker only at this commit: the proxy half of C11 is covered by the proxy world when present"),
+    "C40": P("wm", quick_runs=3000, thorough_runs=100000, quick_budget_s=60, thorough_budget_s=600, required_probes=["c40.tool-call"],
+             level_text="generated MCP tool invocations (every tool, generated arguments incl. unknown/empty names) run as simulated tasks against a store that broker-like writers mutate concurrently; oracle = write attribution (no mutation issued by an MCP task) + snapshot equality around isolated calls. Deciding dimension is the generated inputs; the simulator contributes the concurrent store and fault injection"),
 }
 
 NA = {
